@@ -23,6 +23,6 @@ OBLIGATIONS = [
              "default ids are 0..N-1; zfec.encode called once with the pieces and ids; (shares, ids) returned"),
     chx("decode_checks", "C36_h", "h_decode_checks", timeout=T, bounds={"quick": {"n_max": 4}, "thorough": {"n_max": 8}},
         desc="CRSDecoder.decode: exactly k blocks and exactly k ids or AssertionError without calling zfec; blocks and integer ids passed through in order; result returned"),
-    chx("serialized_params", "C36_h", "h_serialized_params", timeout=T, bounds={"quick": {"size_max": 40}, "thorough": {"size_max": 1100}},
+    chx("serialized_params", "C36_h", "h_serialized_params", timeout=T, bounds={"quick": {"size_max": 40}, "thorough": {"size_max": 250}},
         desc="get_serialized_params / parse_params round trip (path-per-input, small values)"),
 ]
